@@ -276,4 +276,82 @@ theorem loop_code {α : Type} (k : Kind) (cfg : Cfg) (save : Handler α) (ctx : 
     exact ⟨by simp only; omega, fun h => by simp only at h; omega⟩
   · intros; trivial
 
+/-! ### a refusing handler against the accepting one -/
+
+/-- the events recorded by the accepting handler only grow -/
+theorem loop_ctx_suffix (k : Kind) (cfg : Cfg) (evs : List Events.Event) (prev : Nat) (s : St) (src : Src) :
+    ∃ l, (loop k cfg (record none) evs prev s src).ctx = l ++ evs := by
+  refine loop_induction k cfg (record none) (fun evs' _ _ _ => ∃ l, evs' = l ++ evs)
+    (fun r => ∃ l, r.ctx = l ++ evs) ?_ ?_ ?_ ?_ (measure prev src) evs prev s src (Nat.le_refl _) ⟨[], rfl⟩
+  · intro ctx _ _ _ hp _; exact hp
+  · intro ctx _ _ _ hp _ _; exact hp
+  · intro ctx prev' s' src' ctx1 e hp _ hs _
+    obtain ⟨l, hl⟩ := hp
+    simp only [record] at hs
+    split at hs
+    · cases hs
+    · simp only [Option.some.injEq] at hs; rw [← hs, hl]; exact ⟨_ :: l, rfl⟩
+  · intro ctx prev' s' src' ctx1 p hp _ hs _
+    obtain ⟨l, hl⟩ := hp
+    simp only [record] at hs
+    split at hs
+    · cases hs
+    · simp only [Option.some.injEq] at hs; rw [← hs, hl]; exact ⟨_ :: l, rfl⟩
+
+/-- the handler that refuses its call number `n` (counted from 0) against the handler that accepts
+    everything: when the accepting run makes at most `n` calls both runs are the same; otherwise the
+    refusing run returns -0x80 with exactly the `n` events delivered before -/
+theorem loop_refuse (k : Kind) (cfg : Cfg) (n : Nat) :
+    ∀ (m : Nat) (evs : List Events.Event) (prev : Nat) (s : St) (src : Src), measure prev src ≤ m → evs.length ≤ n →
+      ((loop k cfg (record none) evs prev s src).ctx.length ≤ n →
+          loop k cfg (record (some n)) evs prev s src = loop k cfg (record none) evs prev s src)
+      ∧ (n < (loop k cfg (record none) evs prev s src).ctx.length →
+          (loop k cfg (record (some n)) evs prev s src).code = -128
+          ∧ (loop k cfg (record (some n)) evs prev s src).ctx.length = n
+          ∧ ∃ l, (loop k cfg (record none) evs prev s src).ctx = l ++ (loop k cfg (record (some n)) evs prev s src).ctx) := by
+  intro m
+  induction m with
+  | zero =>
+    intro evs prev s src hm hlen
+    have h : ¬ 0 < (next k cfg prev s src).1 := by
+      intro h; have := next_measure k cfg prev s src h; omega
+    rw [loop_nonpos _ _ _ _ _ _ _ h, loop_nonpos _ _ _ _ _ _ _ h]
+    exact ⟨fun _ => rfl, fun hh => by simp only at hh; omega⟩
+  | succ m ih =>
+    intro evs prev s src hm hlen
+    by_cases h : 0 < (next k cfg prev s src).1
+    · have hlt := next_measure k cfg prev s src h
+      by_cases hn : evs.length = n
+      · -- this call is refused
+        have hr : loop k cfg (record (some n)) evs prev s src
+            = { code := -128, ctx := evs, st := (next k cfg prev s src).2.1, prev := prev,
+                src := (next k cfg prev s src).2.2 } := by
+          rw [loop_pos _ _ _ _ _ _ _ h]
+          simp [record, hn]
+        have h0 : ∃ l, (loop k cfg (record none) evs prev s src).ctx = l ++ evs ∧ 0 < l.length := by
+          rw [loop_pos _ _ _ _ _ _ _ h]
+          simp only [record]
+          have hne : ((none : Option Nat) == some evs.length) = false := rfl
+          simp only [hne, Bool.false_eq_true, ↓reduceIte]
+          split
+          · exact ⟨[_], rfl, by simp⟩
+          · obtain ⟨l, hl⟩ := loop_ctx_suffix k cfg (mkEvent (next k cfg prev s src).1 (next k cfg prev s src).2.1 :: evs)
+              (next k cfg prev s src).2.1.curr _ (next k cfg prev s src).2.2
+            exact ⟨l ++ [mkEvent (next k cfg prev s src).1 (next k cfg prev s src).2.1], by rw [hl]; simp, by simp⟩
+        obtain ⟨l, hl, hpos⟩ := h0
+        refine ⟨fun hh => ?_, fun _ => ?_⟩
+        · rw [hl] at hh; simp only [List.length_append] at hh; omega
+        · rw [hr]; exact ⟨rfl, hn, l, hl⟩
+      · -- this call is accepted by both
+        have hne1 : ((some n : Option Nat) == some evs.length) = false := by
+          simp only [beq_eq_false_iff_ne, ne_eq, Option.some.injEq]; omega
+        have hne0 : ((none : Option Nat) == some evs.length) = false := rfl
+        rw [loop_pos _ _ _ _ _ _ _ h, loop_pos _ _ _ _ _ _ _ h]
+        simp only [record, hne1, hne0, Bool.false_eq_true, ↓reduceIte]
+        split
+        · exact ⟨fun _ => rfl, fun hh => by simp only [List.length_cons] at hh; omega⟩
+        · exact ih _ _ _ _ (by omega) (by simp only [List.length_cons]; omega)
+    · rw [loop_nonpos _ _ _ _ _ _ _ h, loop_nonpos _ _ _ _ _ _ _ h]
+      exact ⟨fun _ => rfl, fun hh => by simp only at hh; omega⟩
+
 end Mpt.Parse
